@@ -20,6 +20,9 @@ def isNoneArg : Ty → Bool
   | .none => true
   | _ => false
 
+/-- the value is the declared default of the NamedTuple field -/
+def ntDefault (f : S × Ty × Option Dflt) (x : PyVal) : Prop := f.2.2.map Dflt.toPy = some x
+
 /-- the fragment of the type grammar covered by `C05_sound`: every scalar kind, Any, Optional, list / set / frozenset /
 deque, variadic tuple, dict-like, dataclasses — nested arbitrarily -/
 inductive Frag : Ty → Prop
@@ -34,6 +37,8 @@ inductive Frag : Ty → Prop
   | tuple (ts : List Ty) : ts ≠ [] → (∀ t ∈ ts, acceptsNone t = false) → (∀ t ∈ ts, Frag t) → Frag (.tuple ts)
   | typeddict (name : S) (fields : List (S × Ty × Bool)) : (fields.map (·.1)).Nodup → (∀ f ∈ fields, Frag f.2.1) →
       Frag (.typeddict name fields)
+  | ntuple (name : S) (fields : List (S × Ty × Option Dflt)) : (fields.map (·.1)).Nodup → (∀ f ∈ fields, Frag f.2.1) →
+      Frag (.ntuple name fields)
 
 /-- value `y` is an instance of type `t` (exact runtime types; fields not provided by the document hold their declared
 default / `__post_init__` value, the catch-all field the captured pairs) -/
@@ -59,6 +64,9 @@ inductive Sound (C : Ty → PyVal → Bool) : Ty → PyVal → Prop
       (∀ p ∈ ps, ∀ f ∈ fields, p.1 = .str f.1 → Sound C f.2.1 p.2) →
       (∀ f ∈ fields, f.2.2 = true → ∃ p ∈ ps, p.1 = .str f.1) →
       Sound C (.typeddict name fields) (.map .dict ps)
+  | ntuple (name : S) (fields : List (S × Ty × Option Dflt)) (xs : List PyVal) : xs.length = fields.length →
+      (∀ p ∈ fields.zip xs, ¬ ntDefault p.1 p.2 → Sound C p.1.2.1 p.2) →
+      Sound C (.ntuple name fields) (.ntuple name (fields.map (·.1)) xs)
 
 variable {C : Ty → PyVal → Bool}
 
@@ -566,6 +574,117 @@ theorem tdJunk_ok (fields : List (S × Ty × Bool)) (o : JVal) (y : PyVal) (h : 
       · simp only [pure, Except.pure, Except.ok.injEq] at h; exact h.symm
       · simp [parseE] at h
 
+/-! ### NamedTuple -/
+
+theorem zip_take_left {α β : Type} : ∀ (l : List α) (r : List β), (l.take r.length).zip r = l.zip r
+  | [], r => by simp
+  | a :: l, [] => by simp
+  | a :: l, b :: r => by simp [zip_take_left l r]
+
+theorem filterMap_defaults (g : S × Ty × Option Dflt → Option PyVal) (hg : ∀ f, g f = f.2.2.map Dflt.toPy) :
+    ∀ (rest : List (S × Ty × Option Dflt)), rest.all (fun f => f.2.2.isSome) = true →
+      (rest.filterMap g).length = rest.length ∧ ∀ p ∈ rest.zip (rest.filterMap g), ntDefault p.1 p.2
+  | [], _ => by simp
+  | f :: r, h => by
+    simp only [List.all_cons, Bool.and_eq_true] at h
+    obtain ⟨d, hd⟩ := Option.isSome_iff_exists.1 h.1
+    obtain ⟨h1, h2⟩ := filterMap_defaults g hg r h.2
+    have hgf : g f = some d.toPy := by rw [hg, hd]; rfl
+    simp only [List.filterMap_cons, hgf]
+    refine ⟨by simp [h1], ?_⟩
+    intro p hp
+    simp only [List.zip_cons_cons, List.mem_cons] at hp
+    rcases hp with rfl | hp
+    · simp [ntDefault, hd]
+    · exact h2 p hp
+
+theorem loadNtList_sound {C : Ty → PyVal → Bool} (std : Std) (cfg : Option MetaCfg) :
+    ∀ (fields : List (S × Ty × Option Dflt)) (xs : List JVal) (ys : List PyVal),
+    (∀ f ∈ fields, ∀ o z, loadD std cfg f.2.1 o = .ok z → Sound C f.2.1 z) →
+    loadNtList std cfg fields xs = .ok ys → ys.length ≤ fields.length ∧ ∀ p ∈ fields.zip ys, Sound C p.1.2.1 p.2
+  | [], xs, ys, _, h => by
+    simp only [loadNtList, pure, Except.pure, Except.ok.injEq] at h; subst h; simp
+  | f :: fs, [], ys, _, h => by
+    simp only [loadNtList, pure, Except.pure, Except.ok.injEq] at h; subst h; simp
+  | (n, t, d) :: fs, x :: xs, ys, ih, h => by
+    simp only [loadNtList, bind, Except.bind] at h
+    split at h
+    · simp at h
+    · next y hy =>
+      split at h
+      · simp at h
+      · next ys' hys =>
+        simp only [pure, Except.pure, Except.ok.injEq] at h; subst h
+        obtain ⟨h1, h2⟩ := loadNtList_sound std cfg fs xs ys' (fun f hf => ih f (by simp [hf])) hys
+        refine ⟨by simp; omega, ?_⟩
+        intro p hp
+        simp only [List.zip_cons_cons, List.mem_cons] at hp
+        rcases hp with rfl | hp
+        · exact ih (n, t, d) (by simp) x y hy
+        · exact h2 p hp
+
+theorem loadNtField_sound {C : Ty → PyVal → Bool} (std : Std) (cfg : Option MetaCfg) (k : S) (v : JVal) (y : PyVal) :
+    ∀ (fields : List (S × Ty × Option Dflt)), (∀ f ∈ fields, ∀ o z, loadD std cfg f.2.1 o = .ok z → Sound C f.2.1 z) →
+      loadNtField std cfg k v fields = .ok y → ∃ f ∈ fields, f.1 = k ∧ Sound C f.2.1 y
+  | [], _, h => by simp [loadNtField, rawE] at h
+  | (n, t, d) :: r, ih, h => by
+    rw [loadNtField] at h
+    by_cases hn : (n == k) = true
+    · simp only [hn, if_true] at h
+      exact ⟨(n, t, d), by simp, by simpa using hn, ih (n, t, d) (by simp) v y h⟩
+    · have hb : (n == k) = false := by simpa using hn
+      simp only [hb, Bool.false_eq_true, if_false] at h
+      obtain ⟨f, hf, hk, hs⟩ := loadNtField_sound std cfg k v y r (fun f hf => ih f (by simp [hf])) h
+      exact ⟨f, by simp [hf], hk, hs⟩
+
+/-- `base_type(**kwargs)`: every element is a supplied keyword value for that field, or the field's default -/
+theorem ntFill_spec (vals : List (S × PyVal)) : ∀ (L : List (S × Option Dflt)) (xs : List PyVal), ntFill vals L = .ok xs →
+    xs.length = L.length ∧ ∀ p ∈ L.zip xs, (∃ q ∈ vals, q.1 = p.1.1 ∧ q.2 = p.2) ∨ p.1.2.map Dflt.toPy = some p.2
+  | [], xs, h => by
+    simp only [ntFill, pure, Except.pure, Except.ok.injEq] at h; subst h; simp
+  | (n, d) :: r, xs, h => by
+    unfold ntFill at h
+    cases hfind : vals.reverse.find? (fun p => p.1 == n) with
+    | some p =>
+      rw [hfind] at h
+      simp only [bind, Except.bind] at h
+      split at h
+      · simp at h
+      · next rest hrest =>
+        simp only [pure, Except.pure, Except.ok.injEq] at h; subst h
+        obtain ⟨h1, h2⟩ := ntFill_spec vals r rest hrest
+        refine ⟨by simp [h1], ?_⟩
+        intro q hq
+        simp only [List.zip_cons_cons, List.mem_cons] at hq
+        rcases hq with rfl | hq
+        · have hm := List.mem_of_find?_eq_some hfind
+          have hk : p.1 = n := by simpa using List.find?_some hfind
+          exact Or.inl ⟨p, List.mem_reverse.1 hm, hk, rfl⟩
+        · exact h2 q hq
+    | none =>
+      rw [hfind] at h
+      cases d with
+      | none => simp [rawE] at h
+      | some dv =>
+        simp only [bind, Except.bind] at h
+        split at h
+        · simp at h
+        · next rest hrest =>
+          simp only [pure, Except.pure, Except.ok.injEq] at h; subst h
+          obtain ⟨h1, h2⟩ := ntFill_spec vals r rest hrest
+          refine ⟨by simp [h1], ?_⟩
+          intro q hq
+          simp only [List.zip_cons_cons, List.mem_cons] at hq
+          rcases hq with rfl | hq
+          · exact Or.inr rfl
+          · exact h2 q hq
+
+theorem zip_map_left' {α β γ : Type} (f : α → γ) : ∀ (l : List α) (r : List β),
+    (l.map f).zip r = (l.zip r).map (fun p => (f p.1, p.2))
+  | [], r => by simp
+  | a :: l, [] => by simp
+  | a :: l, b :: r => by simp [zip_map_left' f l r]
+
 /-- **soundness over the fragment** -/
 theorem sound (std : Std) (cfg : Option MetaCfg) (t : Ty) (hf : Frag t) : ∀ (o : JVal) (y : PyVal),
     loadD std cfg t o = .ok y → Sound conformsScalar t y := by
@@ -763,6 +882,99 @@ theorem sound (std : Std) (cfg : Option MetaCfg) (t : Ty) (hf : Frag t) : ∀ (o
     | list _ =>
       rw [loadD] at h
       exact hjunk h
+      all_goals (intros; rename_i hh; cases hh)
+  | ntuple name fields hnd _ ih =>
+    intro o y h
+    have hlist : ∀ xs' : List JVal,
+        (do let ys ← loadNtList std cfg fields xs'
+            let rest := fields.drop ys.length
+            if rest.all (fun f => f.2.2.isSome) then
+              pure (PyVal.ntuple name (fields.map (fun f : S × Ty × Option Dflt => f.1))
+                (ys ++ rest.filterMap (fun f : S × Ty × Option Dflt => f.2.2.map Dflt.toPy)))
+            else rawE "TypeError") = .ok y → Sound conformsScalar (.ntuple name fields) y := by
+      intro xs' h'
+      simp only [bind, Except.bind] at h'
+      split at h'
+      · simp at h'
+      · next ys hys =>
+        split at h'
+        · next hall =>
+          simp only [pure, Except.pure, Except.ok.injEq] at h'; subst h'
+          obtain ⟨hle, hs⟩ := loadNtList_sound std cfg fields xs' ys ih hys
+          obtain ⟨hd1, hd2⟩ := filterMap_defaults (fun f => f.2.2.map Dflt.toPy) (fun _ => rfl) (fields.drop ys.length) hall
+          have hsplit : fields = fields.take ys.length ++ fields.drop ys.length := (List.take_append_drop _ _).symm
+          have htl : (fields.take ys.length).length = ys.length := by simp; omega
+          refine Sound.ntuple name fields _ ?_ ?_
+          · simp [hd1]; omega
+          · intro p hp hnd'
+            have hz : fields.zip (ys ++ (fields.drop ys.length).filterMap (fun f : S × Ty × Option Dflt => f.2.2.map Dflt.toPy))
+                = (fields.take ys.length).zip ys ++ (fields.drop ys.length).zip
+                    ((fields.drop ys.length).filterMap (fun f : S × Ty × Option Dflt => f.2.2.map Dflt.toPy)) := by
+              have hza := List.zip_append (r₁ := fields.drop ys.length)
+                (r₂ := (fields.drop ys.length).filterMap (fun f : S × Ty × Option Dflt => f.2.2.map Dflt.toPy)) htl
+              rw [List.take_append_drop] at hza
+              exact hza
+            rw [hz] at hp
+            rcases List.mem_append.1 hp with hp | hp
+            · rw [zip_take_left] at hp
+              exact hs p hp
+            · exact absurd (hd2 p hp) hnd'
+        · simp [rawE] at h'
+    cases o with
+    | dict kvs =>
+      rw [loadD] at h
+      simp only [bind, Except.bind] at h
+      split at h
+      · simp at h
+      · next vals hvals =>
+        split at h
+        · simp at h
+        · next xs hxs =>
+          simp only [pure, Except.pure, Except.ok.injEq] at h; subst h
+          have hA : ∀ q ∈ vals, ∃ f ∈ fields, f.1 = q.1 ∧ Sound conformsScalar f.2.1 q.2 := by
+            refine mapME_all _ (fun q : S × PyVal => ∃ f ∈ fields, f.1 = q.1 ∧ Sound conformsScalar f.2.1 q.2) ?_ kvs vals hvals
+            intro kv q hq
+            split at hq
+            · simp at hq
+            · next y' hy' =>
+              simp only [pure, Except.pure, Except.ok.injEq] at hq; subst hq
+              exact loadNtField_sound std cfg kv.1 kv.2 y' fields ih hy'
+          obtain ⟨h1, h2⟩ := ntFill_spec vals _ xs hxs
+          refine Sound.ntuple name fields xs (by simpa using h1) ?_
+          intro p hp hnd'
+          have hp' : ((p.1.1, p.1.2.2), p.2) ∈ (fields.map (fun f => (f.1, f.2.2))).zip xs := by
+            rw [zip_map_left']; exact List.mem_map.2 ⟨p, hp, rfl⟩
+          rcases h2 _ hp' with ⟨q, hq, hk, hv⟩ | hdef
+          · obtain ⟨f, hf, hfk, hs⟩ := hA q hq
+            have hpf : p.1 ∈ fields := (List.of_mem_zip hp).1
+            have : f = p.1 := nodup_key_inj (fun g : S × Ty × Option Dflt => g.1) fields hnd f hf p.1 hpf (by rw [hfk, hk])
+            subst this
+            simp only at hv
+            rw [← hv]; exact hs
+          · exact absurd hdef hnd'
+    | null =>
+      rw [loadD] at h
+      · simp [jIter, rawE] at h
+      all_goals (intros; rename_i hh; cases hh)
+    | bool _ =>
+      rw [loadD] at h
+      · simp [jIter, rawE] at h
+      all_goals (intros; rename_i hh; cases hh)
+    | int _ =>
+      rw [loadD] at h
+      · simp [jIter, rawE] at h
+      all_goals (intros; rename_i hh; cases hh)
+    | float _ =>
+      rw [loadD] at h
+      · simp [jIter, rawE] at h
+      all_goals (intros; rename_i hh; cases hh)
+    | str s =>
+      rw [loadD] at h
+      · exact hlist _ (by simpa [jIter] using h)
+      all_goals (intros; rename_i hh; cases hh)
+    | list xs =>
+      rw [loadD] at h
+      · exact hlist _ (by simpa [jIter] using h)
       all_goals (intros; rename_i hh; cases hh)
 
 end DW.Props.C05
